@@ -45,7 +45,29 @@ func goid() int64 {
 func keyName(k string) string { return "k" + k }
 
 func runScenario(id, valspec, cmdspec, schedspec string, settle time.Duration) string {
-	n := nodis.Open(&nodis.Options{Storage: storage.NewMemory()})
+	// scenarios whose id starts with "c-" begin with every key evicted to a copying storage (Pebble):
+	// the first command on a key reloads the value under the key lock
+	cold := strings.HasPrefix(id, "c-")
+	var n *nodis.Nodis
+	if cold {
+		dir, err := os.MkdirTemp("", "vh-conc-cold-")
+		if err != nil {
+			panic(err)
+		}
+		defer os.RemoveAll(dir)
+		n = nodis.Open(&nodis.Options{Storage: storage.NewPebble(dir, nil)})
+		defer func() {
+			// Close flushes under every key lock: a scenario that ended in a deadlock would hang here
+			fin := make(chan struct{})
+			go func() { n.Close(); close(fin) }()
+			select {
+			case <-fin:
+			case <-time.After(300 * time.Millisecond):
+			}
+		}()
+	} else {
+		n = nodis.Open(&nodis.Options{Storage: storage.NewMemory()})
+	}
 	keys := map[string]bool{}
 	if valspec != "-" {
 		for _, kv := range strings.Split(valspec, ",") {
@@ -56,6 +78,21 @@ func runScenario(id, valspec, cmdspec, schedspec string, settle time.Duration) s
 				n.RPush(keyName(p[0]), []byte("x"))
 			}
 		}
+	}
+	if cold {
+		for pass := 0; pass < 8; pass++ {
+			n.VerifGC()
+		}
+	}
+	// scenarios whose id starts with "e-": every key of the keyspace (given with value 0) is a list whose deadline
+	// has passed and which has not been collected: to RPUSH and LLEN it is a key that exists and is empty
+	if strings.HasPrefix(id, "e-") && valspec != "-" {
+		for _, kv := range strings.Split(valspec, ",") {
+			p := strings.SplitN(kv, "=", 2)
+			n.RPush(keyName(p[0]), []byte("old"))
+			n.ExpirePX(keyName(p[0]), 1)
+		}
+		time.Sleep(4 * time.Millisecond)
 	}
 	var reg sync.Map // goroutine id -> *cthread
 	var threads []*cthread
@@ -179,6 +216,17 @@ func runScenario(id, valspec, cmdspec, schedspec string, settle time.Duration) s
 		if l, ok := m.Value.(*list.LinkedList); ok {
 			lens[m.Name] = l.LLen()
 			present[m.Name] = true
+		} else if m.Value == nil && cold {
+			// still (or again) evicted: ask for the length, unless a blocked thread holds the key
+			name := m.Name
+			got := make(chan int64, 1)
+			go func() { got <- n.LLen(name) }()
+			select {
+			case v := <-got:
+				lens[name] = v
+				present[name] = true
+			case <-time.After(300 * time.Millisecond):
+			}
 		}
 	}
 	var ks []string
